@@ -28,6 +28,12 @@ def main() -> int:
             continue
         wb = {"doc": j["doc"], "cfg": inf["cfg"], "case": inf["label"]}
         for a, res in actions_results(r):
+            if a["a"] == "endpoint_info" and not a["x"].get("unmatched") and inf.get("deterministic_valid"):
+                # census on the hand-built (known valid) documents: every documented status has its own branch
+                run.ev.count("status_censuses")
+                lost = [st for st in a["x"].get("doc_statuses", []) if st not in a["x"].get("man_statuses", [])]
+                if lost:
+                    run.vd.violation("documented_status_not_handled", f"{a['module']}: documented statuses {lost} of a valid document have no decoding branch (diagnostics: {[d['detail'][:80] for d in r.get('diags') or []][:2]})", dict(wb, module=a["module"]))
             if a["a"] != "call" or res.get("action_exc"):
                 continue
             x = a["x"]
